@@ -186,7 +186,64 @@ func boundsConfigSkip(prog *core.Program, pk *packages.Package, skipMode string)
 		}
 	}
 	// DecodeBytes: err == nil ⇒ len(result) ≥ 0 (trivial) — nothing to add.
+	inferPeekContracts(prog, pk, cfg)
 	return cfg
+}
+
+// inferPeekContracts gives unexported helper methods of *Decoder that have no declared contract a candidate one and
+// keeps it only if the engine proves it on the helper's own body (guess and check): for a method with results
+// (…, n int, …, err error) the candidate is that of a non-advancing reader,
+//
+//	err == nil  ⇒  1 ≤ n ≤ len(d.p) − d.offset   and   d.offset is unchanged
+//
+// which is what callers need to advance the cursor by n. A candidate that is not proved is dropped silently (the
+// callers' obligations are then undecided, as before). Exported methods keep their declared contracts.
+func inferPeekContracts(prog *core.Program, pk *packages.Package, cfg *bounds.Config) {
+	root := prog.Pkg("")
+	if root == nil || pk != root {
+		return
+	}
+	for _, f := range core.Funcs(root) {
+		if f.Decl == nil || f.Decl.Recv == nil || f.Obj == nil || f.Obj.Exported() || f.Decl.Body == nil {
+			continue
+		}
+		qn := bounds.QualifiedName(f.Obj)
+		sp := cfg.Specs[qn]
+		if sp == nil || sp.Post != nil || sp.ErrIdx < 0 {
+			continue
+		}
+		sig := f.Obj.Type().(*types.Signature)
+		nIdx := -1
+		for j := 0; j < sig.Results().Len(); j++ {
+			if b, ok := sig.Results().At(j).Type().Underlying().(*types.Basic); ok && b.Kind() == types.Int {
+				nIdx = j
+			}
+		}
+		if nIdx < 0 {
+			continue
+		}
+		idx := nIdx
+		sp.Post = func(v bounds.View) []lin.Fact {
+			n, ok1 := v.Result(idx)
+			off, ok2 := v.RecvField("offset")
+			off0, ok3 := v.RecvFieldEntry("offset")
+			lp, ok4 := v.RecvFieldLen("p")
+			if !ok1 || !ok2 || !ok3 || !ok4 {
+				return []lin.Fact{lin.LE(lin.Const(1), lin.Const(0))}
+			}
+			return []lin.Fact{lin.LE(lin.Const(1), n), lin.LE(n.Add(off), lp), lin.LE(off, off0), lin.LE(off0, off)}
+		}
+		obs, unsup := bounds.Analyze(cfg, funcSource(root, f, false))
+		proved := len(unsup) == 0
+		for _, ob := range obs {
+			if ob.Rule == "O-post" && !ob.OK {
+				proved = false
+			}
+		}
+		if !proved {
+			sp.Post = nil
+		}
+	}
 }
 
 // funcSource adapts a core.FuncInfo for the engine.
